@@ -705,6 +705,30 @@ impl Allocator {
     verif::push_snapshot(snapshot);
   }
 
+  /// Address, reported size and kind of every held object, and address and
+  /// reported size of every other managed allocation
+  pub fn verif_objects(&self) -> (Vec<(usize, usize, u8)>, Vec<(usize, usize)>) {
+    let objects = self
+      .obj_heap
+      .iter()
+      .chain(self.nursery_obj_heap.iter())
+      .map(|handle| {
+        (
+          handle.verif_ref().verif_address(),
+          handle.size(),
+          handle.kind() as u8,
+        )
+      })
+      .collect();
+    let others = self
+      .heap
+      .iter()
+      .map(|item| (item.loc() as usize, item.size()))
+      .collect();
+
+    (objects, others)
+  }
+
   /// The threshold of the next collection
   pub fn verif_next_gc(&self) -> usize {
     self.next_gc
